@@ -120,7 +120,16 @@ func TestC03_ReadersNeverSeeUncommitted(t *testing.T) {
 		if err != nil {
 			t.Fatalf("HARNESS-ERROR %v", err)
 		}
-		desc := fmt.Sprintf("slot=%d %s seed=%v W:%s faultAt=%d", slot, txh.PlacementNames[placement], seed, prog, faultAt)
+		// half of the cases: the node caches are cold (evicted / fresh process), the writer loads its nodes on a miss
+		cold := rapid.Bool().Draw(t, "coldNodeCaches")
+		firstReader := 0
+		if cold {
+			e.EvictNodeCaches()
+			// readers warm the caches themselves: let the first one run only at W's k-th backend call (1000 = not
+			// before W's Commit), so that it is W that loads its nodes on a miss
+			firstReader = rapid.SampledFrom([]int{0, 2, 4, 8, 1000, 1000}).Draw(t, "firstReaderAtCall")
+		}
+		desc := fmt.Sprintf("slot=%d %s seed=%v W:%s faultAt=%d coldCaches=%v firstReaderAtCall=%d", slot, txh.PlacementNames[placement], seed, prog, faultAt, cold, firstReader)
 
 		var obs []readerObs
 		flipped := false
@@ -138,6 +147,9 @@ func TestC03_ReadersNeverSeeUncommitted(t *testing.T) {
 						return txh.Action{}
 					}
 					n++
+					if n <= firstReader && !inCommit {
+						return txh.Action{}
+					}
 					mode := sop.ForReading
 					mname := "ForReading"
 					if n%2 == 0 {
@@ -245,6 +257,9 @@ func TestC03_ReadersNeverSeeUncommitted(t *testing.T) {
 			labels = append(labels, "committed")
 		} else if prog.End == "commit" {
 			labels = append(labels, "commitFailed")
+		}
+		if cold {
+			labels = append(labels, "coldNodeCaches")
 		}
 		for _, o := range obs {
 			rec.Case(desc+"@"+o.site, strings.HasPrefix(o.site, "commit:"), labels...)
